@@ -18,7 +18,7 @@ def tok(s):
 # AST: regex = ('A1', sub) | ('A2', sub, regex); sub = ('S1', item) | ('S2', item, sub)
 # item = ('C', ch, q) | ('K', [citem...], q) | ('G', noncap, regex, q); citem = ('c', ch) | ('r', a, b)
 # q = None | '*' | '+' | '?' | ('e', n) | ('a', n) | ('b', n, m)
-def gen_quant(rng, allow_bad=False):
+def gen_quant(rng, allow_bad=False, big=True):
     m = rng.random()
     if m < 0.5:
         return None
@@ -29,7 +29,7 @@ def gen_quant(rng, allow_bad=False):
     if m < 0.8:
         return '?'
     n = rng.choice([0, 1, 2, 3])
-    if rng.random() < 0.06:
+    if big and rng.random() < 0.06:
         n = rng.choice([17, 20, 32])          # counts well above any small unrolling limit
     k = rng.random()
     if k < 0.35:
@@ -55,27 +55,29 @@ def gen_citem(rng, allow_bad=False):
     return ('r', a, b)
 
 
-def gen_item(rng, depth, allow_bad=False):
+def gen_item(rng, depth, allow_bad=False, big=True):
+    # large counts only on characters and classes that are not inside a repeated group: the unrolled graph stays small
     m = rng.random()
     if m < 0.5 or depth <= 0:
-        return ('C', gen_char(rng), gen_quant(rng, allow_bad))
+        return ('C', gen_char(rng), gen_quant(rng, allow_bad, big))
     if m < 0.72:
-        return ('K', [gen_citem(rng, allow_bad) for _ in range(rng.choice([1, 1, 2, 3]))], gen_quant(rng, allow_bad))
-    return ('G', rng.random() < 0.4, gen_regex(rng, depth - 1, allow_bad), gen_quant(rng, allow_bad))
+        return ('K', [gen_citem(rng, allow_bad) for _ in range(rng.choice([1, 1, 2, 3]))], gen_quant(rng, allow_bad, big))
+    q = gen_quant(rng, allow_bad, False)
+    return ('G', rng.random() < 0.4, gen_regex(rng, depth - 1, allow_bad, big and q in (None, '?')), q)
 
 
-def gen_sub(rng, depth, allow_bad=False):
+def gen_sub(rng, depth, allow_bad=False, big=True):
     n = rng.choice([1, 1, 2, 3])
-    items = [gen_item(rng, depth, allow_bad) for _ in range(n)]
+    items = [gen_item(rng, depth, allow_bad, big) for _ in range(n)]
     s = ('S1', items[-1])
     for it in reversed(items[:-1]):
         s = ('S2', it, s)
     return s
 
 
-def gen_regex(rng, depth=3, allow_bad=False):
+def gen_regex(rng, depth=3, allow_bad=False, big=True):
     n = rng.choice([1, 1, 1, 2, 3])
-    subs = [gen_sub(rng, depth, allow_bad) for _ in range(n)]
+    subs = [gen_sub(rng, depth, allow_bad, big) for _ in range(n)]
     r = ('A1', subs[-1])
     for s in reversed(subs[:-1]):
         r = ('A2', s, r)
